@@ -91,7 +91,7 @@ def _deps(draw, i, canon_ver):
     if not later:
         return []
     k = draw(st.sampled_from([0, 1, 1, 2, 2, 3]))
-    names = draw(st.lists(st.sampled_from(later), min_size=min(k, len(later)), max_size=min(k, len(later)), unique=True))
+    names = draw(st.lists(st.sampled_from([later[0]] * 3 + later), min_size=min(k, len(later)), max_size=min(k, len(later)), unique=True))
     out = []
     for n in names:
         v = draw(st.sampled_from([canon_ver[n]] * 40 + GOOD + BAD))
@@ -105,7 +105,7 @@ def _case(draw):
     states = [draw(st.sampled_from(['ok'] * 8 + ['missing', 'empty'])) for _ in range(ndirs)]
     if 'ok' not in states:
         states[0] = 'ok'
-    canon_ver = dict((n, draw(st.sampled_from(['1.0'] * 6 + ['2.0'] * 3 + GOOD))) for n in NSS)
+    canon_ver = dict((n, draw(st.sampled_from(['1.0'] * 8 + ['2.0'] * 4 + GOOD))) for n in NSS)
     canon_deps = dict((n, draw(_deps(i, canon_ver))) for i, n in enumerate(NSS))
     okdirs = [i for i in range(ndirs) if states[i] == 'ok']
     dirs = [{'state': s, 'files': []} for s in states]
@@ -127,6 +127,8 @@ def _case(draw):
             d = draw(st.sampled_from(okdirs))
             fver = draw(st.sampled_from(GOOD * 3 + BAD + [canon_ver[ns]] * 5))
             kind = draw(st.sampled_from(['clean'] * 7 + ['variant', 'variant', 'ns-mismatch', 'ns-mismatch', 'ver-mismatch', 'ver-mismatch', 'garbage', 'emptyfile']))
+            if fver == canon_ver[ns] and kind not in ('clean', 'variant'):
+                kind = 'clean'      # keep the canonical files loadable so that dependency chains succeed
             f = clean(ns, fver)
             if kind == 'variant':
                 f['deps'] = draw(_deps(i, canon_ver))
@@ -156,7 +158,7 @@ def _case(draw):
         if op == 'prepend':
             hist.append({'op': 'prepend', 'dir': draw(st.integers(0, ndirs - 1))})
         elif op in ('require', 'require_private'):
-            ns = draw(st.sampled_from(NSS))
+            ns = draw(st.sampled_from(['A', 'A', 'A', 'B', 'B', 'C', 'C', 'D', 'E', 'F']))
             placed = sorted(set(f['fver'] for d in dirs for f in d['files'] if f['fns'] == ns)) or [canon_ver[ns]]
             vk = draw(st.sampled_from(['none'] * 6 + ['placed'] * 5 + ['canon', 'random']))
             ver = (None if vk == 'none' else draw(st.sampled_from(placed)) if vk == 'placed' else
@@ -903,10 +905,11 @@ def run_shard(ctx, spec):
 def health(agg, tier):
     ev = max(1, agg['evals'])
     probs = []
-    for lab, frac in (('res:ok', 0.5), ('res:not-found', 0.2), ('res:conflict', 0.1), ('res:mismatch', 0.03),
-                      ('dep-depth>=2', 0.1), ('require_private', 0.15), ('lazy-flag', 0.1), ('mismatch-file', 0.03),
-                      ('versionless-multi-candidate', 0.08), ('query-after-partial-load', 0.02), ('load', 0.1),
-                      ('tie', 0.005), ('q:deps', 0.15), ('prepend', 0.3)):
+    for lab, frac in (('res:ok', 0.4), ('res:not-found', 0.3), ('res:conflict', 0.08), ('res:mismatch', 0.025),
+                      ('dep-depth>=2', 0.05), ('require_private', 0.25), ('lazy-flag', 0.15), ('mismatch-file', 0.025),
+                      ('versionless-multi-candidate', 0.08), ('highest-version-in-two-directories', 0.1),
+                      ('query-after-partial-load', 0.05), ('load', 0.2), ('tie', 0.02), ('q:deps', 0.15),
+                      ('q:deps-beyond-immediate', 0.01), ('prepend', 0.5)):
         if agg['labels'].get(lab, 0) < frac * ev:
             probs.append('%s in %d of %d histories' % (lab, agg['labels'].get(lab, 0), ev))
     if len(agg['nontrivial']) < 0.1 * ev:
